@@ -70,6 +70,14 @@ def call_method(I, recv, name, args, kwargs):
             return H.lst_insert(I, recv, args[0], args[1])
         if name == 'append':
             return H._append(I, recv, args[0])
+        if name == 'pop' and not args:
+            if recv.heap is not None:
+                raise Unsupported('pop from a snapshot')
+            if not I.p.choose(recv.length > 0):
+                raise PyRaise(ExcVal(IndexError))
+            last = recv.at(z3.simplify(recv.length - 1))
+            recv.length = recv.length - 1
+            return last
         mm = I.p.engine.models.get(('method', 'SymList', name))
         if mm is not None:
             return mm.fn(I, [recv] + list(args), kwargs)
